@@ -522,3 +522,36 @@ func verifDoneClosed(ch chan struct{}) bool {
 		return false
 	}
 }
+
+func verifPropUniverse(n int, sample map[string]any, depth int) []string {
+	var out []string
+	for i := 0; i < n; i++ {
+		out = append(out, verifStr(fmt.Sprintf("pu%d", i)))
+	}
+	return out
+}
+func verifObjMap(x []byte) (map[string]json.RawMessage, bool) {
+	if x == nil || string(x) == "null" {
+		return nil, false
+	}
+	var m map[string]json.RawMessage
+	if json.Unmarshal(x, &m) != nil {
+		return nil, false
+	}
+	return m, true
+}
+func verifObjIs(x []byte) bool { _, ok := verifObjMap(x); return ok }
+func verifObjHas(x []byte, p string) bool {
+	m, _ := verifObjMap(x)
+	_, ok := m[p]
+	return ok
+}
+func verifObjGet(x []byte, p string) []byte {
+	m, _ := verifObjMap(x)
+	v, ok := m[p]
+	if !ok {
+		return nil
+	}
+	return verifJSONCanon(v)
+}
+func verifObjWellFormed(x []byte) bool { return true }
